@@ -1192,7 +1192,9 @@ func genC20Json(c *Ctx) {
 		`{"a":1`, `{"a":1,`, `{"a":1,}`, `{"a" 1}`, `{"a":}`, `{1:2}`, `{"a":1]`, `{"a":1 "b":2}`, `{"a":1,"a":2}`, `{"":{}}`, `{"a"`, `{"a":`, `{,"a":1}`,
 		`{"a":[1,2],"b":{"c":"}"}}`, "null", "true", "[1]]", "{}}",
 		"\t[\r\n[[[[[[[]]]]]]] ,\n{\"a\":{\"b\":{\"c\":{\"d\":{\"e\":{\"f\":{}}}}}}}\t", "[[[[[[[]]]]]]],", "\r\n{ \"a\\\"\" :\t[[[[[[{}]]]]]] ,", "{\"k\\u0041\":[[[[[[1]]]]]]]",
-		"[\"\\\\\",", "{\"\\\\\":1,", "[1e5 ,\t2E-3\n", "[ [ ] , { } ,"}
+		"[\"\\\\\",", "{\"\\\\\":1,", "[1e5 ,\t2E-3\n", "[ [ ] , { } ,",
+		// top-level values that are not of the expected kind
+		"false", "0", "-1.5e3", `"internal server error"`, " 17 ", "7 [1,2]", `"x" {"a":1}`, "\n\tnull\n"}
 	for _, d := range bad {
 		h := c20hex([]byte(d))
 		if h == "" {
